@@ -8,6 +8,12 @@ import FpgoVerif.Props.C13
 #print axioms FpgoVerif.C13.C13_reply_never_stuck
 #print axioms FpgoVerif.C13.C13_actor_keeps_serving
 #print axioms FpgoVerif.C13.C13_pinned_code_panics
+#print axioms FpgoVerif.C13.C13_fanin_conservation
+#print axioms FpgoVerif.C13.C13_fanin_bound
+#print axioms FpgoVerif.C13.C13_fanin_blocked_only_when_full
+#print axioms FpgoVerif.C13.C13_fanin_released_by_recv
+#print axioms FpgoVerif.C13.C13_fanin_no_deadlock
+#print axioms FpgoVerif.C13.C13_fanin_all_received
 #print axioms FpgoVerif.C13.C13_skel_AskOnce
 #print axioms FpgoVerif.C13.C13_skel_AskOnceWithTimeout
 #print axioms FpgoVerif.C13.C13_skel_AskChannel
